@@ -136,3 +136,23 @@ Definition outcome_tag (fuel : nat) (e : expr) : string :=
   | Some (_, Unsup _) => "unsup"
   | None => "setup"
   end.
+
+(** [uses_unmodelled_pow], also looking into table constructors, call arguments and the other
+    places [has_side_effects] looks into *)
+Fixpoint pow_gap (e : expr) : bool :=
+  uses_unmodelled_pow e ||
+  match e with
+  | EBinary _ l r => pow_gap l || pow_gap r
+  | EUnary _ e' | EParen e' | ETypeCast e' _ | ETypeInst e' _ => pow_gap e'
+  | EField p _ => pow_gap p
+  | EIndex p k => pow_gap p || pow_gap k
+  | EIf bs els => existsb (fun b => match b with EBranch c r => pow_gap c || pow_gap r end) bs || pow_gap els
+  | EInterp segs => existsb (fun s => match s with ISExpr e' => pow_gap e' | _ => false end) segs
+  | ETable entries =>
+    existsb (fun en => match en with
+                       | TField _ v => pow_gap v
+                       | TIndex k v => pow_gap k || pow_gap v
+                       | TValue v => pow_gap v
+                       end) entries
+  | _ => false
+  end.
